@@ -6,6 +6,7 @@ CONSTANTS
   NCand = 1
   KiloPrefix = 8
   DeclStride = 8
+  VCSet = {"c128"}
 INIT Init
 NEXT Next
 INVARIANT Export
